@@ -163,6 +163,17 @@ fn check_index(m: &Model, st: &ProcessState, l: &mut Local) {
             }
             if !want.is_empty() {
                 l.outcome(if want.values().any(|s| s.len() > 1) { "unloaded:several-offsets" } else { "unloaded:hit" });
+                if want.len() > 1 {
+                    l.outcome("unloaded:several-names");
+                }
+                // shape of the covering set in (base, end) order: is a non-covering module sorted between two covering ones?
+                let mut sorted: Vec<(u64, u64)> = m.unloaded.iter().map(|u| (u.base, u.base + u.size as u64)).collect();
+                sorted.sort_unstable();
+                let cov: Vec<bool> = sorted.iter().map(|r| r.0 <= a && a < r.1).collect();
+                let (first, last) = (cov.iter().position(|c| *c).unwrap(), cov.iter().rposition(|c| *c).unwrap());
+                if cov[first..=last].iter().any(|c| !*c) {
+                    l.outcome("unloaded:covering-set-not-contiguous-in-address-order");
+                }
             }
         }
     }
@@ -240,7 +251,7 @@ fn main() {
         let mut def = CheckDef::new(
             "C14",
             "exploration",
-            "bounded-exhaustive differential check: every dump of three product spaces is generated with minidump-synth, processed through the public end-to-end path and compared field by field with an index model computed from the generator parameters. index = thread-id pattern (7, incl. duplicates/gaps/empty) x exception thread id (6, incl. absent/missing/dump-writer) x Breakpad info (6) x exception context {absent, readable, garbage} x thread context readability (3) x 12 CPU kinds x 12 OS ids (quick: one record of the OS's menu per case, rotating; thorough: 16); reason = 12 OS ids x 12 CPUs x the whole per-OS exception-record menu x 2 addresses; proc = misc-info flags (5) x Linux status (4) x unloaded-module layouts (4) x module lists (3) x 3 CPUs x thread lists of 1/4/32. distinct_nontrivial = distinct observed (thread shape, requesting thread, reason, address, pid, cpu, os) tuples.",
+            "bounded-exhaustive differential check: every dump of three product spaces is generated with minidump-synth, processed through the public end-to-end path and compared field by field with an index model computed from the generator parameters. index = thread-id pattern (7, incl. duplicates/gaps/empty) x exception thread id (6, incl. absent/missing/dump-writer) x Breakpad info (6) x exception context {absent, readable, garbage} x thread context readability (3) x 12 CPU kinds x 12 OS ids (quick: one record of the OS's menu per case, rotating; thorough: 16); reason = 12 OS ids x 12 CPUs x the whole per-OS exception-record menu x 2 addresses; proc = misc-info flags (5) x Linux status (4) x unloaded-module layouts (4) x module lists (3) x 3 CPUs x thread lists of 1/4/32; unloaded-overlap = every ordered list of 3 unloaded modules with (base, size) on the grid {0,0x1000,0x2000} x {0x800,0x1000,0x4000} (thorough: 4 bases x 4 sizes) x 3 name patterns (all different, first = last, all equal) x {no, one} loaded module inside the window, and every ordered list of 4 unloaded modules on the grid {0,0x1000,0x2000} x {0x800,0x4000} (thorough: 3 x 3) x 3 name patterns (one name at two and at three ranges); ranges nest, overlap, coincide, touch and lie apart in every stream order, and each dump has one thread (frame 0) at every range's base-1, base, middle, last byte and end, whose per-frame unloaded-module offsets must equal the brute-force filter over the stream. distinct_nontrivial = distinct observed (thread shape, requesting thread, reason, address, pid, cpu, os) tuples.",
         );
         def.assumptions = vec![
             "duplicate thread ids: the requesting thread may be any non-dump-writer thread carrying the named id; further threads with that id may start from either context; names are given once per distinct id".into(),
@@ -252,7 +263,7 @@ fn main() {
             "kept out of the alphabet (they belong to C03): /proc limits streams, memory regions ending at 2^64-1, rsp < 8".into(),
         ];
         def.extra.insert("bounds".into(), json!({"threads": "0..4 and 32", "cpus": 12, "os_ids": 12, "tier": ctx.tier.name()}));
-        def.spaces = vec![space(gen_reason(ctx.tier)), space(gen_proc(ctx.tier)), space(gen_index(ctx.tier))];
+        def.spaces = vec![space(gen_reason(ctx.tier)), space(gen_proc(ctx.tier)), space(gen_index(ctx.tier)), space(gen_unloaded_overlap(ctx.tier))];
         def
     })
 }
